@@ -478,6 +478,10 @@ def _lt(left: object, right: object) -> bool:
     if isinstance(left, str) and isinstance(right, str):
         return left < right
 
+    if isinstance(left, bool) or isinstance(right, bool):
+        # Booleans are not numbers, even though bool is a subclass of int.
+        return False
+
     if isinstance(left, (int, float)) and isinstance(right, (int, float)):
         return left < right
 
